@@ -318,6 +318,25 @@ theorem processMode_safe (mode : DState.Mode) {s : DState} {w : ω} {rc : RC} (r
       · refine MSafe_pure.mpr ?_; exact ⟨h1, h2, h3, h4⟩
     · refine MSafe_pure.mpr ?_; exact ⟨h1, h2, h3, h4⟩
 
+theorem processLoop_no_panic (mode : DState.Mode) (fuel : Nat) {s : DState} {w : ω} {rc : RC} (rd : Rd)
+    (hs : DStateInv s) (hw : LzBufSafe.inv w) (hrc : RCInv rc)
+    (hf : (rd.rem.length + s.partialBuf.length) * 4294967296 + rc.range < fuel) (snk : Sink)
+    (what : String) : (DState.processLoop mode fuel s w rc rd snk).2 ≠ .error (.panic what) :=
+  (processLoop_safe mode fuel s w rc rd hs hw hrc hf snk).ne_panic what
+
+theorem processLoop_terminates (mode : DState.Mode) (fuel : Nat) {s : DState} {w : ω} {rc : RC} (rd : Rd)
+    (hs : DStateInv s) (hw : LzBufSafe.inv w) (hrc : RCInv rc)
+    (hf : (rd.rem.length + s.partialBuf.length) * 4294967296 + rc.range < fuel) (snk : Sink) :
+    (DState.processLoop mode fuel s w rc rd snk).2 ≠ .error .fuel :=
+  (processLoop_safe mode fuel s w rc rd hs hw hrc hf snk).ne_fuel
+
+/-- the model's `loopFuel` always suffices -/
+theorem loopFuel_suffices {s : DState} {rc : RC} (rd : Rd) (hrc : RCInv rc) :
+    (rd.rem.length + s.partialBuf.length) * 4294967296 + rc.range < DState.loopFuel s rd := by
+  have := hrc.2.1
+  simp only [DState.loopFuel, U32]
+  omega
+
 end generic
 
 end Safety
